@@ -369,6 +369,21 @@ def check_concrete(c, work):
                       "%s: attributes %s of the %s operation object changed: %s -> %s" % (
                           where, ks, leaked, {k: a.get(k) for k in ks}, {k: b.get(k) for k in ks}))
                     break
+        # ---- a list is the composition of its steps: feeding the table through one single-operation dispatcher after the
+        # other (each hands on the table it returns, n/a cells as n/a) gives what the list gives ----
+        if len(ops) >= 2 and f not in first and obs["k"] != "exc":
+            cur, chain_exc = _mkdf(tsv), None
+            try:
+                with warnings.catch_warnings():
+                    warnings.simplefilter("ignore")
+                    for o1 in json.loads(before):
+                        cur = Dispatcher([o1], data_root=None, backup_name=None, hed_versions=None).run_operations(cur)
+                chained = project(cur)
+            except Exception as ex:
+                chained = {"k": "exc", "e": _exc_name(ex), "msg": str(ex)[:200]}
+            if {k: v for k, v in chained.items() if k != "msg"} != {k: v for k, v in obs.items() if k != "msg"}:
+                V("not-composition:" + names, "%s: the list returns %s, applying its operations one after the other returns %s"
+                  % (where, _show(obs), _show(chained)))
         # ---- same table, same outcome (whatever the specification says about the result) ----
         o_cmp = {k: v for k, v in obs.items() if k not in ("msg",)}
         if f in first:
